@@ -21,6 +21,8 @@ ASSUMPTIONS = [
     "library counts them as 0.5*(1e-14/a_ref)^(1/b), which is added to the tolerance",
     "when an excursion attains its largest |value| more than once the statement does not say which index is reported: the series are "
     "then compared at the end of the record only (plus length and monotonicity)",
+    "power-law clause: series are rescaled (by a power of two) to max|x| >= 1e-3: the library represents a below-cut-off peak by the "
+    "absolute amplitude 1e-14, which only means 'negligible' for records whose amplitudes dwarf it",
     "b in (0.05, 1], cut_off in [0, 0.1], a_ref and the peak amplitudes within a factor 1e3 of each other so that ratios^(1/b) stay finite",
 ]
 EPS = np.finfo(float).eps
@@ -97,11 +99,21 @@ def total_variation(case, ctx):
     # direction of the final movement: sign of the last non-zero difference
     dif = np.diff(a)
     last = dif[np.nonzero(dif)[0][-1]]
-    tol = 0.0 if exact else 4 * EPS * n * tv
+    # rounding: the library rebases the series (x - x[0]) before differencing, so errors scale with max|x| (incl. any offset)
+    tol = 0.0 if exact else 4 * EPS * n * (tv + float(np.max(np.abs(a))))
     nz = set(np.nonzero(d)[0].tolist())
     allowed = set(peaks)
+    if not exact and ref.local_peak_indices(a - a[0]) != peaks:
+        # a difference smaller than the rounding of (x - x[0]) decides where a turning point is: the peak positions are
+        # ambiguous in floating point; only the sums are asserted
+        ctx.amb()
+        allowed = allowed | set(ref.local_peak_indices(a - a[0]))
+        nz = nz & allowed if nz <= allowed else nz
+        allowed_min = set()
+    else:
+        allowed_min = allowed - {0}
     ctx.check(nz <= allowed, "delta series is non-zero away from reported peaks: indices %s (peaks %s)" % (sorted(nz - allowed)[:5], peaks[:8]))
-    ctx.check(nz >= allowed - {0}, "delta series is zero at reported peak(s) %s" % sorted((allowed - {0}) - nz)[:5])
+    ctx.check(nz >= allowed_min, "delta series is zero at reported peak(s) %s" % sorted(allowed_min - nz)[:5])
     sabs = float(np.sum(np.abs(d.astype(LD))))
     ssum = float(np.sum(d.astype(LD)))
     ctx.check(abs(sabs - tv) <= tol, "sum|delta| = %r but the total variation is %r" % (sabs, tv))
@@ -155,6 +167,9 @@ def power_law(case, ctx):
     if ref.is_constant(a):
         a = a.copy()
         a[-1] += 1.0
+    if float(np.max(np.abs(a))) < 1e-3:
+        # the library replaces below-cut-off peaks by the ABSOLUTE placeholder 1e-14: amplitudes must dwarf it (ASSUMPTIONS)
+        a = a * 2.0 ** int(np.ceil(-np.log2(float(np.max(np.abs(a))))))
     n = len(a)
     b = case["b"]
     cut = case["cut"]
